@@ -188,6 +188,28 @@ func init() {
 		},
 		LevelNote: "Proved for every password, salt, parameter and PA-DATA sequence: string-to-key of the six etypes equals the RFC composition - DK(random-to-key(PBKDF2-HMAC-SHA1(...)), \"kerberos\") with 0 meaning 2^32 iterations (RFC 3962 4), KDF-HMAC-SHA2(random-to-key(PBKDF2-HMAC-SHA2(pw, etype-name|0|salt, iter, keylength)), \"kerberos\") (RFC 8009 4), DK(random-to-key(168-fold(pw|salt)), \"kerberos\") (RFC 3961 6.3.1), MD4(UTF-16LE(pw)) (RFC 4757 2); KDF-HMAC-SHA2 and the RFC 8009 / 4757 derive-key functions equal their RFC definitions; GetKeyFromPassword uses etype, salt and parameters of the last PA-ETYPE-INFO2 wherever it stands, and the requested etype with default salt and parameters when no string-to-key PA-DATA is present; generated keys carry the etype number and the protocol key length (open known finding: 24 instead of 32 octets for aes256-cts-hmac-sha384-192). n-fold: bounded stand-in only.",
 	}
+	props["C11"] = &PropDef{
+		Funcs: []string{
+			`\(\*client\.Cache\)\.[A-Za-z]+`, `\(\*client\.sessions\)\.[A-Za-z]+`, `\(\*client\.session\)\.[A-Za-z]+`,
+			`(*client.Client).GetCachedTicket`, `(*client.Client).sessionTGT`, `(*client.Client).sessionTimes`, `(*client.Client).addSession`,
+			`config.randServOrder`, `(*config.Config).GetKDCs`, `(*config.Config).GetKpasswdServers`,
+		},
+		Kinds:            kinds(append([]string{"lock"}, contractKinds...)...),
+		NeedObligations:  true,
+		QuickTimeout:     20,
+		AllowUnsupported: map[string]bool{"(*client.session).destroy": true, "(*client.sessions).update": true},
+		Assumptions: []string{
+			"concurrency is modelled by the lock-invariant rule: state declared as guarded by a mutex (the Entries maps of client.Cache and client.sessions, the mutable fields of client.session) is arbitrary at every acquisition and may only be accessed with that mutex held at the needed level (proved per access); interleavings between critical sections are covered by the havoc; accesses to memory that is not declared guarded are not analysed for races",
+			"an object allocated by the function itself is initialised without its lock (taken as unpublished)",
+			"lock ordering across different mutexes (deadlock freedom) is not analysed beyond: no declared lock is acquired while already held by the same function, none is released unheld",
+			"functions using channels (session.destroy, sessions.update, the auto-renewal goroutine) are outside the subset and not covered",
+		},
+		NotDecided: []string{
+			"data-race freedom of state that is not declared guarded (Client.settings.assumePreAuthentication and preAuthEType are written by ASExchange without a lock), deadlocks involving the renewal goroutine's cancel channel, goroutine leaks",
+			"randServOrder is proved to return the configured servers as a set with keys 1..n; with duplicate entries in the configuration the multiset (true permutation) claim is not stated",
+		},
+		LevelNote: "Proved in the lock-invariant model: every access to the client's ticket cache map, session table map and to the mutable fields of a session happens with the object's mutex held (read lock for reads, write lock for writes), no mutex is re-acquired or released unheld; Cache.getEntry and session.tgtDetails return a ticket and a session key read in one critical section from one entry; randServOrder returns exactly the configured servers under keys 1..n and KDC / kpasswd look-up does not write to the configuration.",
+	}
 	props["C17"] = &PropDef{
 		Funcs: []string{
 			`(*gssapi.WrapToken).Marshal`, `(*gssapi.WrapToken).Unmarshal`, `(*gssapi.WrapToken).computeCheckSum`, `(*gssapi.WrapToken).Verify`,
